@@ -91,6 +91,22 @@ func runC12(c *Collector, r *Rng, thorough bool) {
 		n = 8000
 	}
 	hashAlgs := []cose.Algorithm{cose.AlgorithmSHA256, cose.AlgorithmSHA384, cose.AlgorithmSHA512, -15, 0, -65540, 7}
+	// corpus: caller-supplied raw unprotected bytes carrying a governed label (known finding)
+	for _, raw := range []string{"a10300", "a119010220", "a1190103626162", "a11901046161"} {
+		h := cose.Headers{Protected: cose.ProtectedHeader{cose.HeaderLabelAlgorithm: cose.AlgorithmES256}, RawUnprotected: unhex(raw)}
+		sg := &spySigner{alg: -7, kind: SOk, sig: []byte{1, 2}}
+		op, obs, out, err, p := execSignHE(sg, h, cose.HashEnvelopePayload{HashAlgorithm: cose.AlgorithmSHA256, HashValue: make([]byte, 32)})
+		if p {
+			c.Fail("C12/panic", "SignHashEnvelope panicked", map[string]any{"op": op})
+			continue
+		}
+		addCase(c, "corpus/raw-unprotected", op, obs, true)
+		if err == nil {
+			if rerr := heRulesOnWire(out); rerr != nil {
+				c.Fail("C12/raw-unprotected-not-validated", "SignHashEnvelope produced an envelope violating the rules: "+rerr.Error()+" in "+hx(out), map[string]any{"op": trunc(op, 900)})
+			}
+		}
+	}
 	for i := 0; i < n; i++ {
 		alg := pick(r, []cose.Algorithm{-7, -37, -8})
 		cfg := BucketCfg{Spell: r.Bool(), Max: 4, Csig: 0, Invalid: r.Chance(1, 8)}
